@@ -5,10 +5,11 @@ CONSTANTS
   NU = 2
   MaxConn = 8
   MaxRefuse = 8
-  MaxFeed = 6
+  MaxFeed = 12
   MaxEof = 4
   SlowSet = {"C"}
   CfgWrite = TRUE
+  NCl = 2
 CONSTRAINT Progress
 POSTCONDITION Post
 CHECK_DEADLOCK FALSE
